@@ -31,7 +31,11 @@ func c10Input(c *ctx, i int, valid []string) (class string, src string) {
 	}
 	// the property's scope is sources of at most 64 KiB: nesting depths are cut to fit
 	fit := func(d, unit int) int { return min(d, 64000/unit) }
-	switch i % 12 {
+	cls := i % 16
+	if cls == 11 && i%32 == 11 {
+		cls = 13 // half of the valid-plus-garbage slots go to the arity probes
+	}
+	switch cls {
 	case 0: // arbitrary bytes
 		n := c.rng.Intn(300)
 		if c.chance(0.05) {
@@ -163,6 +167,112 @@ func c10Input(c *ctx, i int, valid []string) (class string, src string) {
 			"struct S { a: array<S, 2>, }\n" + wrap("  var x: S;"), "override o1: u32 = o2;\noverride o2: u32 = o1;\n" + wrap("  o[0] = o1;"),
 			"fn f() -> u32 { return f(); }\n" + wrap("  o[0] = f();"), "alias V = vec4<V>;\n" + wrap("  var x: V;")}
 		return "cyclic-decl", forms[c.rng.Intn(len(forms))]
+	case 12: // constant and dynamic indices at, just past and far past the bounds of vectors, matrices and arrays
+		bases := []struct {
+			decl, name string
+			n          int
+		}{
+			{"", "vec3(1, 2, 3)", 3}, {"", "vec4(vec2(1, 2), vec2(3, 4))", 4}, {"", "vec2<f32>(1.0, 2.0)", 2}, {"", "array<u32, 3>(1u, 2u, 3u)", 3},
+			{"", "mat2x2<f32>(1.0, 2.0, 3.0, 4.0)", 2}, {"const cv = vec2(1.0, 2.0);\n", "cv", 2}, {"const ca = array(1, 2, 3);\n", "ca", 3},
+			{"const cm = mat3x2<f32>();\n", "cm", 3}, {"var<private> pv: vec3<u32>;\n", "pv", 3}, {"var<private> pa: array<u32, 4>;\n", "pa", 4},
+			{"const cav = array(vec2(1, 2), vec2(3, 4));\n", "cav", 2}, {"", "vec3<bool>(true, false, true)", 3},
+		}
+		b := bases[c.rng.Intn(len(bases))]
+		idx := []string{fmt.Sprint(b.n - 1), fmt.Sprint(b.n), fmt.Sprint(b.n + 1), "7", "4294967295u", "-1", "2147483647", "0x7fffffffu", "(1 - 2)", "i32(-1)",
+			fmt.Sprintf("%du", b.n), "o[0]"}[c.rng.Intn(12)]
+		form := []string{"  let x = %s[%s];", "  var x = %s[%s];", "  const x = %s[%s];", "  o[0] = u32(%s[%s]);", "  let x = %s[%s][%s];"}[c.rng.Intn(5)]
+		if strings.Count(form, "%s") == 3 {
+			return "boundary-index", b.decl + wrap(fmt.Sprintf(form, b.name, idx, idx))
+		}
+		return "boundary-index", b.decl + wrap(fmt.Sprintf(form, b.name, idx))
+	case 13: // builtin calls with too few / too many arguments
+		pre := "@group(0) @binding(1) var t: texture_2d<f32>;\n@group(0) @binding(2) var s: sampler;\n@group(0) @binding(3) var ts: texture_storage_2d<rgba8unorm, write>;\n" +
+			"@group(0) @binding(4) var td: texture_depth_2d;\n@group(0) @binding(5) var sc: sampler_comparison;\nvar<workgroup> wa: atomic<u32>;\nvar<workgroup> wu: u32;\n"
+		// a correct argument list per function, cut short or extended
+		sigs := [][]string{
+			{"textureSample", "t", "s", "vec2<f32>(0.5)"}, {"textureSampleLevel", "t", "s", "vec2<f32>(0.5)", "0.0"}, {"textureSampleBias", "t", "s", "vec2<f32>(0.5)", "0.5"},
+			{"textureSampleGrad", "t", "s", "vec2<f32>(0.5)", "vec2<f32>(0.1)", "vec2<f32>(0.1)"}, {"textureSampleCompare", "td", "sc", "vec2<f32>(0.5)", "0.5"},
+			{"textureSampleCompareLevel", "td", "sc", "vec2<f32>(0.5)", "0.5"}, {"textureGather", "0", "t", "s", "vec2<f32>(0.5)"}, {"textureGatherCompare", "td", "sc", "vec2<f32>(0.5)", "0.5"},
+			{"textureLoad", "t", "vec2<i32>(1)", "0"}, {"textureStore", "ts", "vec2<i32>(1)", "vec4<f32>(1.0)"}, {"textureDimensions", "t", "0"}, {"textureNumLevels", "t"},
+			{"min", "1u", "2u"}, {"max", "1.0", "2.0"}, {"clamp", "1u", "0u", "2u"}, {"dot", "vec2<f32>(0.5)", "vec2<f32>(0.5)"}, {"cross", "vec3<f32>(1.0)", "vec3<f32>(2.0)"},
+			{"select", "1u", "2u", "true"}, {"mix", "1.0", "2.0", "0.5"}, {"fma", "1.0", "2.0", "3.0"}, {"smoothstep", "0.0", "1.0", "0.5"}, {"abs", "1.0"}, {"arrayLength", "&o"},
+			{"atomicAdd", "&wa", "1u"}, {"atomicLoad", "&wa"}, {"atomicStore", "&wa", "1u"}, {"atomicExchange", "&wa", "1u"}, {"atomicCompareExchangeWeak", "&wa", "1u", "2u"},
+			{"workgroupUniformLoad", "&wu"}, {"bitcast<u32>", "1.0"}, {"vec3<f32>", "1.0", "2.0", "3.0"}, {"vec4", "1", "2", "3", "4"}, {"mat2x2<f32>", "1.0", "2.0", "3.0", "4.0"},
+			{"array<u32, 2>", "1u", "2u"}, {"u32", "1.0"}, {"pack4x8unorm", "vec4<f32>(1.0)"}, {"unpack4x8unorm", "1u"}, {"extractBits", "1u", "2u", "3u"},
+			{"insertBits", "1u", "2u", "3u", "4u"}, {"countOneBits", "1u"}, {"length", "vec2<f32>(0.5)"}, {"distance", "1.0", "2.0"}, {"pow", "1.0", "2.0"}, {"ldexp", "1.0", "2"},
+			{"frexp", "1.0"}, {"modf", "1.5"}, {"transpose", "mat2x2<f32>()"}, {"determinant", "mat2x2<f32>()"}, {"all", "vec2<bool>(true)"}, {"subgroupBallot", "true"},
+			{"subgroupAdd", "1u"}, {"subgroupBroadcast", "1u", "1u"}, {"subgroupShuffle", "1u", "1u"}, {"dot4U8Packed", "1u", "2u"}, {"quantizeToF16", "1.0"}, {"storageBarrier"},
+			{"workgroupBarrier"}, {"sign", "1.0"}, {"saturate", "1.0"}, {"faceForward", "vec3<f32>(1.0)", "vec3<f32>(1.0)", "vec3<f32>(1.0)"}, {"refract", "vec3<f32>(1.0)", "vec3<f32>(1.0)", "0.5"},
+		}
+		extra := []string{"t", "s", "ts", "td", "sc", "&wa", "&wu", "&o", "1", "1u", "1.0", "vec2<f32>(0.5)", "vec2<i32>(1)", "vec4<f32>(1.0)", "o[0]", "true", "0"}
+		// enumerate: first every proper prefix of every correct argument list (too few arguments), then random
+		// extensions / replacements
+		k := c.stats["arity-probes"]
+		c.stats["arity-probes"]++
+		var prefixes [][2]int
+		for si, sg := range sigs {
+			for n := 0; n < len(sg)-1; n++ {
+				prefixes = append(prefixes, [2]int{si, n})
+			}
+		}
+		var f string
+		var as []string
+		if k < len(prefixes) {
+			sg := sigs[prefixes[k][0]]
+			f, as = sg[0], append([]string{}, sg[1:1+prefixes[k][1]]...)
+		} else {
+			sg := sigs[c.rng.Intn(len(sigs))]
+			f, as = sg[0], append([]string{}, sg[1:]...)
+			if c.chance(0.5) {
+				for j, n := 0, 1+c.rng.Intn(3); j < n; j++ {
+					as = append(as, extra[c.rng.Intn(len(extra))])
+				}
+			} else if len(as) > 0 {
+				as[c.rng.Intn(len(as))] = extra[c.rng.Intn(len(extra))]
+			}
+		}
+		call := f + "(" + strings.Join(as, ", ") + ")"
+		return "builtin-arity", pre + wrap([]string{"  let x = " + call + ";", "  " + call + ";", "  o[0] = u32(" + call + ");", "  _ = " + call + ";"}[c.rng.Intn(4)])
+	case 14: // valid programs: every statement kind with expression operands, preceded by many dead folded expressions
+		// (lowering compacts the arena afterwards, renumbering every later handle)
+		pre := "enable subgroups;\n@group(0) @binding(1) var ts: texture_storage_2d<rgba8unorm, write>;\n@group(0) @binding(2) var<storage, read_write> sa: array<atomic<u32>, 4>;\n" +
+			"var<workgroup> wa: atomic<u32>;\nvar<workgroup> wu: u32;\n"
+		if c.chance(0.5) {
+			pre = strings.TrimPrefix(pre, "enable subgroups;\n")
+		}
+		var sb strings.Builder
+		sb.WriteString("  var acc = o[0];\n")
+		for j, n := 0, 1+c.rng.Intn(30); j < n; j++ {
+			fmt.Fprintf(&sb, "  let d%d = vec4(%d, 2, 3, 4).%s;\n", j, j, []string{"wzyx", "xy", "zzz", "x"}[c.rng.Intn(4)])
+		}
+		stmts := []string{"  let b = subgroupBallot(acc > 1u); acc = acc + b.x;", "  let b = subgroupBallot(); acc = acc + b.x;", "  acc = acc + subgroupAdd(acc * 2u);",
+			"  acc = acc + subgroupBroadcast(acc + 1u, 1u);", "  acc = acc + subgroupShuffle(acc, acc & 3u);", "  acc = acc + subgroupExclusiveAdd(acc);",
+			"  acc = acc + atomicAdd(&wa, acc + 1u);", "  acc = acc + atomicMax(&sa[acc & 3u], acc);", "  acc = acc + workgroupUniformLoad(&wu);",
+			"  textureStore(ts, vec2<i32>(i32(acc), 1), vec4<f32>(f32(acc)));", "  let r = atomicCompareExchangeWeak(&wa, acc, acc + 1u); acc = acc + r.old_value;",
+			"  atomicStore(&wa, acc * 3u);", "  workgroupBarrier();", "  acc = acc + subgroupBroadcastFirst(acc);", "  acc = acc + select(1u, 2u, subgroupAll(acc > 2u));"}
+		for j, n := 0, 1+c.rng.Intn(4); j < n; j++ {
+			sb.WriteString(stmts[c.rng.Intn(len(stmts))] + "\n")
+		}
+		sb.WriteString("  o[1] = acc;")
+		return "compaction-stress", pre + wrap(sb.String())
+	case 15: // a chain of let bindings each using the previous one twice (shared sub-expressions): work that doubles
+		// per binding is still fast at 16 and takes seconds at 24; the long chains come in one spelling only
+		n := []int{8, 12, 16, 20, 22, 24}[c.rng.Intn(6)]
+		var sb strings.Builder
+		seed := []string{"o[0]", "f32(o[0])", "vec2<f32>(f32(o[0]))"}[c.rng.Intn(3)]
+		op := []string{"+", "*", "-", "&"}[c.rng.Intn(4)]
+		if n >= 20 {
+			seed, op = "f32(o[0])", "+"
+		}
+		if seed != "o[0]" && op == "&" {
+			op = "+"
+		}
+		fmt.Fprintf(&sb, "  let a0 = %s %s %s;\n", seed, op, seed)
+		for j := 1; j <= n; j++ {
+			fmt.Fprintf(&sb, "  let a%d = a%d %s a%d;\n", j, j-1, op, j-1)
+		}
+		fmt.Fprintf(&sb, "  o[1] = u32(a%d%s);", n, map[bool]string{true: ".x", false: ""}[strings.HasPrefix(seed, "vec2")])
+		return "shared-let-chain", wrap(sb.String())
 	case 10: // truncated valid programs
 		s := valid[c.rng.Intn(len(valid))]
 		return "truncated", s[:c.rng.Intn(len(s)+1)]
